@@ -119,6 +119,15 @@ func (c *clause) compilePred(p Term, env *Env) error {
 		c.bytecode = append(c.bytecode, instruction{opcode: opCall, operand: procedureIndicator{name: p, arity: 0}})
 		return nil
 	case Compound:
+		if p.Functor() == atomComma && p.Arity() == 2 {
+			iter := seqIterator{Seq: p, Env: env}
+			for iter.Next() {
+				if err := c.compilePred(iter.Current(), env); err != nil {
+					return err
+				}
+			}
+			return nil
+		}
 		for i := 0; i < p.Arity(); i++ {
 			c.compileBodyArg(p.Arg(i), env)
 		}
